@@ -104,6 +104,9 @@ static int subst (regexp *, char *, int, int);
 static int docmd (int);
 static int doglob (void);
 static void free_ed_buffer (object_t *);
+#ifdef OLD_ED
+static int ed_write_callback (char *, int, svalue_t **);
+#endif
 static void shift (char *);
 static void indent (char *);
 static int indent_code (void);
@@ -525,37 +528,81 @@ doprnt (int from, int to)
 static void
 free_ed_buffer (object_t * who)
 {
+#ifdef OLD_ED
+  ed_buffer_t *eb = ED_BUFFER;
+
+  /* exit_fn may destruct `who'; destruct_object() must not save and free this buffer again */
+  eb->teardown = 1;
+#endif
   clrbuf ();
 #ifdef OLD_ED
-  if (ED_BUFFER->write_fn)
+  if (eb->write_fn)
     {
-      FREE (ED_BUFFER->write_fn);
-      free_object (ED_BUFFER->exit_ob, "ed EOF");
+      FREE (eb->write_fn);
+      eb->write_fn = 0;
+      free_object (eb->exit_ob, "ed EOF");
     }
-  if (ED_BUFFER->exit_fn)
+  if (eb->exit_fn)
     {
       /* make this "safe" */
-      safe_apply (ED_BUFFER->exit_fn, ED_BUFFER->exit_ob, 0, ORIGIN_DRIVER);
-      FREE (ED_BUFFER->exit_fn);
-      free_object (ED_BUFFER->exit_ob, "ed EOF");
-      FREE ((char *) ED_BUFFER);
-      who->interactive->ed_buffer = 0;
-      set_prompt ("> ");
-      return;
+      safe_apply (eb->exit_fn, eb->exit_ob, 0, ORIGIN_DRIVER);
+      current_ed_buffer = eb;
+      current_editor = who;
+      FREE (eb->exit_fn);
+      eb->exit_fn = 0;
+      free_object (eb->exit_ob, "ed EOF");
     }
 #endif
 
   if (P_OLDPAT)
     FREE ((char *) P_OLDPAT);
 #ifdef OLD_ED
-  FREE ((char *) ED_BUFFER);
-  who->interactive->ed_buffer = 0;
+  /* the interactive is gone if `who' was destructed by a callback */
+  if (who->interactive && who->interactive->ed_buffer == eb)
+    who->interactive->ed_buffer = 0;
+  if (eb->pinned)
+    eb->dead = 1;		/* still in use by a command that is inside its write callback */
+  else
+    FREE ((char *) eb);
   set_prompt ("> ");
 #else
   object_free_ed_buffer ();
 #endif
   return;
 }
+
+#ifdef OLD_ED
+/*
+ * Call write_fn (arguments are on the stack).  The callback may destruct the
+ * editing user, which ends the session (destruct_object() -> save_ed_buffer()).
+ * The buffer is pinned during the call, so the struct is still there when
+ * the call returns.  Returns 0 if the session was ended: ED_BUFFER is gone
+ * then (freed here, or by an outer frame that has it pinned too).
+ */
+static int
+ed_write_callback (char *fn, int num_arg, svalue_t ** res)
+{
+  ed_buffer_t *eb = ED_BUFFER;
+  object_t *who = current_editor;
+  svalue_t *r;
+
+  eb->pinned++;
+  r = safe_apply (fn, eb->exit_ob, num_arg, ORIGIN_DRIVER);
+  eb->pinned--;
+  if (res)
+    *res = r;
+  if (eb->dead)
+    {
+      if (!eb->pinned)
+        FREE ((char *) eb);
+      current_ed_buffer = 0;
+      return 0;
+    }
+  current_ed_buffer = eb;
+  current_editor = who;
+  return 1;
+}
+#endif
 
 #define putcntl(X) *line++ = '^'; *line++ = (X) ? ((*str&31)|'@') : '?'
 
@@ -723,9 +770,8 @@ dowrite (int from, int to, char *fname, int apflg)
 
       share_and_push_string (fname);
       push_number (0);
-      res =
-        safe_apply (ED_BUFFER->write_fn, ED_BUFFER->exit_ob, 2,
-                    ORIGIN_DRIVER);
+      if (!ed_write_callback (ED_BUFFER->write_fn, 2, &res))
+        return (SESSION_ENDED);
       if (IS_ZERO (res))
         return (ERR);
     }
@@ -766,7 +812,8 @@ dowrite (int from, int to, char *fname, int apflg)
     {
       share_and_push_string (fname);
       push_number (1);
-      safe_apply (ED_BUFFER->write_fn, ED_BUFFER->exit_ob, 2, ORIGIN_DRIVER);
+      if (!ed_write_callback (ED_BUFFER->write_fn, 2, 0))
+        return (SESSION_ENDED);
     }
 #endif
 
@@ -2285,11 +2332,13 @@ docmd (int glob)
         {
           if ((fptr = getfn (1)) == NULL)
             return FILE_NAME_ERROR;
-          if (dowrite (1, P_LASTLN, fptr, 0) >= 0)
+          if ((st = dowrite (1, P_LASTLN, fptr, 0)) >= 0)
             {
               clrbuf ();
               return (EOF);
             }
+          if (st == SESSION_ENDED)
+            return st;
         }
       if (P_NLINES)
         return LINE_OR_RANGE_ILL;
@@ -2549,6 +2598,8 @@ report_status (int status)
       free_ed_buffer (current_editor);
       ED_OUTPUT (ED_DEST, "Exit from ed.\n");
       return;
+    case SESSION_ENDED:	/* nothing left to report on */
+      return;
     case CHANGED:
       ED_OUTPUT (ED_DEST, "File has been changed.\n");
       break;
@@ -2615,14 +2666,26 @@ save_ed_buffer (object_t * who)
   svalue_t *stmp;
   char *fname;
 
+  ed_buffer_t *eb = who->interactive->ed_buffer;
+
+  /*
+   * The callbacks below (master, write_fn, exit_fn) may destruct `who';
+   * destruct_object() then comes here again for the buffer we are busy with.
+   */
+  if (eb->teardown)
+    return;
+  eb->teardown = 1;
+
   regexp_user = ED_REGEXP;
-  current_ed_buffer = who->interactive->ed_buffer;
+  current_ed_buffer = eb;
   current_editor = who;
 
   copy_and_push_string (P_FNAME);
   push_object (who);
   /* must be safe; we get called by remove_interactive() */
   stmp = safe_apply_master_ob (APPLY_GET_ED_BUFFER_SAVE_FILE_NAME, 2);
+  current_ed_buffer = eb;
+  current_editor = who;
   if (stmp && stmp != (svalue_t *) - 1)
     {
       if (stmp->type == T_STRING)
